@@ -33,7 +33,7 @@ Proof.
     rewrite Er, Nat.add_0_r. reflexivity.
   - assert (Hk: (k < length C)%nat) by lia.
     rewrite (skipn_nth_cons C k dflt Hk). cbn [firstn eloop].
-    destruct (good_add (x_forb cfg) gid C HC k s Hk HG) as (Ha & Hh & HG1). rewrite Ha. rewrite Hh.
+    destruct (good_add (x_forb cfg) gid C HC k s Hk HG) as (Ha & Hh & HG1). rewrite Ha. rewrite Hh. rewrite (no_contradiction gid C cps Longest k Hcps Hk).
     set (h := nth k C dflt) in *.
     assert (Eid: s_id h = nth (S k) ci 0%N) by (symmetry; apply cids_nth; exact Hk).
     destruct cur as [[i [H cid]]|]; cbn [cur_nx option_map snd fst] in *.
